@@ -568,6 +568,18 @@ def run_op(sd: SuccessionDiagram, op: dict, timeout_s: float = 45.0) -> tuple[Su
             r = sd.expanded_attractor_seeds()
             out = [[int(k) + 1, [vec(x, names) for x in v]] for k, v in sorted(r.items())]
             ret = "ok"
+        elif kind == "api":
+            # the read-only accessors in one bundle; every answer is recomputed by TLC from the projection (QUERY clause)
+            edges_ = []
+            for (p_, c_) in sorted(sd.dag.edges()):
+                edges_.append([p_ + 1, c_ + 1, vec(sd.edge_stable_motif(p_, c_), names), vec(sd.edge_stable_motif(p_, c_, reduced=True), names),
+                               [vec(m, names) for m in sd.edge_all_stable_motifs(p_, c_)],
+                               [vec(m, names) for m in sd.edge_all_stable_motifs(p_, c_, reduced=True)]])
+            out = [sd.root() + 1, len(sd), sd.depth(), [i + 1 for i in sd.node_ids()], [i + 1 for i in sd.stub_ids()],
+                   [i + 1 for i in sd.expanded_ids()], [i + 1 for i in sd.minimal_trap_spaces()],
+                   [i + 1 for i in range(len(sd)) if sd.node_is_minimal(i)],
+                   [[i + 1, [c + 1 for c in sd.node_successors(i)]] for i in sd.expanded_ids()], edges_]
+            ret = "ok"
         elif kind == "setcfg":
             c = ev["newcfg"]
             sd.config["max_motifs_per_node"] = c["maxm"]
